@@ -113,8 +113,8 @@ def run_shard(prop, seed, sh, tmpdir):
             # one case did not come back: no verdict for it (a wall-clock bound is never a violation), the rest of the shard is still explored
             sh.inconclusive.append(f"{eng}: case {dl.group(1)} did not finish within {dl.group(2)} s (replay: --case {dl.group(1)})")
             restarts += 1
-            if restarts > 3:
-                sh.inconclusive.append(f"{eng}: more than 3 cases without an end in one shard; cases {int(dl.group(1)) + 1}..{sh.hi} not explored")
+            if restarts > 1:
+                sh.inconclusive.append(f"{eng}: two cases without an end in one shard; cases {int(dl.group(1)) + 1}..{sh.hi} not explored")
                 break
             lo = int(dl.group(1)) + 1
             continue
